@@ -28,7 +28,7 @@ EXPLANATION = (
 ASSUMPTIONS = ["CPython ast parses /repo's source as the interpreter would",
                "constraint file formats (set_io / LOCATE COMP / ldc_set_location / IO_LOC; set_frequency MHz, FREQUENCY Hz, "
                "create_clock -period ns) frozen in sa/rules/c19.py"]
-MIN_INSTANCES = {"R-19g": 1, "R-19f": 1, "R-19e": 11, "R-19a": 1, "R-19b": 3, "R-19c": 5, "R-19d": 10}
+MIN_INSTANCES = {"R-19h": 4, "R-19g": 1, "R-19f": 1, "R-19e": 11, "R-19a": 1, "R-19b": 3, "R-19c": 5, "R-19d": 10}
 
 STATE_ATTRS = {"_phys_reqd", "_pins", "_io_clocks", "_clocks", "_requested"}
 MUT_CALLS = {"append", "add", "update", "pop", "clear", "setdefault", "extend", "insert", "remove", "popitem"}
@@ -580,4 +580,11 @@ def r19g(model, ctx):
                   f"{DSLB}:{f.lineno}")
 
 
-RULES = [("R-19g", r19g), ("R-19f", r19f), ("R-19e", r19e), ("R-19a", r19a), ("R-19b", r19b), ("R-19c", r19c), ("R-19d", r19d)]
+
+def r19h(model, ctx):
+    """compared with their reference semantics (sa/refs/c19_dsl.py) by path summary"""
+    from .reflib import run_ref_file
+    run_ref_file(model, ctx, "R-19h", "c19_dsl")
+
+
+RULES = [("R-19h", r19h), ("R-19g", r19g), ("R-19f", r19f), ("R-19e", r19e), ("R-19a", r19a), ("R-19b", r19b), ("R-19c", r19c), ("R-19d", r19d)]
